@@ -28,7 +28,7 @@ RULE = ("scenario = seeded world (draft, root schema with definitions, 0-3 remot
 
 REQUIRED_PROBES = ("abandon_with_scopes_pushed", "abandon_with_2plus_scopes_pushed", "gc_finalised_iterator_and_popped",
                    "consumer_died_with_scopes_pushed", "fault:handler_fail_first", "op_ended_in_exception",
-                   "fault:collab_raise", "fault:net_short_body")
+                   "fault:collab_raise", "fault:net_short_body", "fault:gc_inside_operation")
 
 VALIDATION_OPS = ["is_valid", "exhaust", "validate", "take_close", "take_drop", "take_cycle",
                   "tree", "best_match", "consumer_raises"]
@@ -44,6 +44,7 @@ def generate(rng, tier="quick"):
     enabled = [k for k in VALIDATION_OPS if rng.random() < 0.7] or ["is_valid", "take_close"]
     if rng.random() < 0.5:
         enabled.append("gc")        # the collector may run between any two operations
+    gc_inside = rng.random() < 0.35     # ... and in the middle of one (at a traced source line)
     if rng.random() < 0.6:
         enabled += [k for k in RESOLVER_OPS if rng.random() < 0.7]
     refs = W.all_ref_strings(world["root"])
@@ -60,6 +61,8 @@ def generate(rng, tier="quick"):
             pass
         elif kind in VALIDATION_OPS:
             op["inst"] = rng.randrange(ninst)
+            if gc_inside and rng.random() < 0.3:
+                op["gc_at"] = rng.choice([3, 10, 25, 60, 120, 250, 500])
             if kind in ("take_close", "take_drop", "take_cycle", "consumer_raises"):
                 op["k"] = rng.choice([0, 1, 1, 1, 2, 2, 3, 5])
         elif kind == "resolve":
@@ -188,6 +191,10 @@ def shrink(scn):
             del c["world"]["triggers"][kind]
             yield c
     for i, op in enumerate(scn["ops"]):
+        if op.get("gc_at"):
+            c = copy.deepcopy(scn)
+            del c["ops"][i]["gc_at"]
+            yield c
         if op.get("k", 0) > 0:
             c = copy.deepcopy(scn)
             c["ops"][i]["k"] = op["k"] - 1
